@@ -11,6 +11,8 @@ use core::{
     task::{Poll, Waker},
     time::Duration,
 };
+#[cfg(feature = "verif")]
+use crate::verif::std;
 use std::{thread::Thread, time::Instant};
 
 const UNLOCKED: u8 = 0;
@@ -85,6 +87,8 @@ impl<T> Signal<T> {
     /// Waits for finishing async signal for a short time
     #[cfg(feature = "async")]
     pub(crate) fn async_blocking_wait(&self) -> bool {
+        #[cfg(feature = "verif")]
+        crate::verif::at(crate::verif::SITE_ABW_ENTRY);
         let v = self.state.load(Ordering::Relaxed);
         if v < LOCKED {
             fence(Ordering::Acquire);
@@ -92,8 +96,14 @@ impl<T> Signal<T> {
         }
 
         for _ in 0..32 {
+            #[cfg(feature = "verif")]
+            if crate::verif::spin_cut(crate::verif::SITE_ABW_SPIN) {
+                break;
+            }
             //backoff::spin_wait(96);
             backoff::yield_now_std();
+            #[cfg(feature = "verif")]
+            crate::verif::at(crate::verif::SITE_ABW_SPIN);
             let v = self.state.load(Ordering::Relaxed);
             if v < LOCKED {
                 fence(Ordering::Acquire);
@@ -105,6 +115,8 @@ impl<T> Signal<T> {
         let mut sleep_time: u64 = 1 << 10;
         loop {
             backoff::sleep(Duration::from_nanos(sleep_time));
+            #[cfg(feature = "verif")]
+            crate::verif::at(crate::verif::SITE_ABW_SLEEP);
             let v = self.state.load(Ordering::Relaxed);
             if v < LOCKED {
                 fence(Ordering::Acquire);
@@ -120,19 +132,29 @@ impl<T> Signal<T> {
     /// Waits for the signal event in sync mode,
     #[inline(always)]
     pub(crate) fn wait(&self) -> bool {
+        #[cfg(feature = "verif")]
+        crate::verif::at(crate::verif::SITE_WAIT_ENTRY);
         let v = self.state.load(Ordering::Relaxed);
         if v < LOCKED {
             fence(Ordering::Acquire);
             return v == UNLOCKED;
         }
         for _ in 0..256 {
+            #[cfg(feature = "verif")]
+            if crate::verif::spin_cut(crate::verif::SITE_WAIT_SPIN) {
+                break;
+            }
             backoff::yield_now_std();
+            #[cfg(feature = "verif")]
+            crate::verif::at(crate::verif::SITE_WAIT_SPIN);
             let v = self.state.load(Ordering::Relaxed);
             if v < LOCKED {
                 fence(Ordering::Acquire);
                 return v == UNLOCKED;
             }
         }
+        #[cfg(feature = "verif")]
+        crate::verif::at(crate::verif::SITE_WAIT_PRECAS);
         match &self.waker {
             KanalWaker::Sync(waker) => {
                 // waker is not shared as the state is not `LOCKED_STARVATION`
@@ -162,8 +184,16 @@ impl<T> Signal<T> {
 
     /// Waits for the signal event in sync mode with a timeout
     pub(crate) fn wait_timeout(&self, until: Instant) -> bool {
+        #[cfg(feature = "verif")]
+        crate::verif::at(crate::verif::SITE_WT_ENTRY);
         if get_parallelism() > 1 {
             for _ in 0..32 {
+                #[cfg(feature = "verif")]
+                if crate::verif::spin_cut(crate::verif::SITE_WT_SPIN) {
+                    break;
+                }
+                #[cfg(feature = "verif")]
+                crate::verif::at(crate::verif::SITE_WT_SPIN);
                 let v = self.state.load(Ordering::Relaxed);
                 if v < LOCKED {
                     fence(Ordering::Acquire);
@@ -175,6 +205,8 @@ impl<T> Signal<T> {
         }
         //return self.v.load(Ordering::Acquire);
         while Instant::now() < until {
+            #[cfg(feature = "verif")]
+            crate::verif::at(crate::verif::SITE_WT_LOOP);
             let v = self.state.load(Ordering::Relaxed);
             if v < LOCKED {
                 fence(Ordering::Acquire);
@@ -182,6 +214,8 @@ impl<T> Signal<T> {
             }
             backoff::yield_now_std();
         }
+        #[cfg(feature = "verif")]
+        crate::verif::at(crate::verif::SITE_WT_EXIT);
         self.state.load(Ordering::Acquire) == UNLOCKED
     }
 
